@@ -187,11 +187,11 @@ type EKind int
 
 // Error kinds (compared as kinds, never by message text).
 const (
-	EOK EKind = iota
-	ECycle        // a reference was re-entered while still being evaluated
-	EUnresolved   // a name is not known to any layer
-	EOper         // ${x:?m}: failed with message m
-	EType         // a container where text is needed, and similar: any error is accepted
+	EOK         EKind = iota
+	ECycle            // a reference was re-entered while still being evaluated
+	EUnresolved       // a name is not known to any layer
+	EOper             // ${x:?m}: failed with message m
+	EType             // a container where text is needed, and similar: any error is accepted
 )
 
 func (k EKind) String() string {
